@@ -573,6 +573,30 @@ for sym, spec in (('floor', 'is_floor(result, arg)'), ('ceiling', 'is_ceiling(re
         notes=['T-FLOATNEW: Float.__new__ is represented by a hand-written model (clamps of the single-precision range)']))
 
 
+# float_result: the class of a NaN/INF result of div and mod (xs:float when an operand is an xs:float and none is an xs:double)
+import elementpath.xpath1._xpath1_operators as _ops1          # noqa: E402
+
+
+def float_result_case(k1, k2):
+    def setup(S, ex):
+        v = S.float('value', ex=ex)
+        return Case([v, PKINDS[k1](S, 'a', ex), PKINDS[k2](S, 'b', ex)], hooks={'Float': lambda ex, node, a, kw: _float_new(a[0])})
+    return setup
+
+
+for k1 in ('int', 'dec', 'float', 'xsfloat'):
+    for k2 in ('int', 'dec', 'float', 'xsfloat'):
+        want_float = 'xsfloat' in (k1, k2) and 'float' not in (k1, k2)
+        CONTRACTS.append(Contract(
+            f'float_result.{k1}.{k2}', 'C06', lambda: _ops1.float_result, float_result_case(k1, k2),
+            pre=["is_nan(value) or inf_sign(value) != 0"],
+            post=[('class_follows_the_operand_types', f"returned and class_name(result) == '{'Float' if want_float else 'float'}'"),
+                  ('value_kept', "returned and is_nan(result) == is_nan(value) and inf_sign(result) == inf_sign(value)")],
+            specs=SPECS2, native=lambda i: run_native(lambda: _ops1.float_result(i['value'], i['a'], i['b'])),
+            samples=lambda rng, k1=k1, k2=k2: ({'value': v, 'a': x, 'b': y} for v in (math.nan, math.inf, -math.inf) for x in PSAMPLE[k1][:3] for y in PSAMPLE[k2][:3]),
+            expect_min_obligations=2, notes=['T-FLOATNEW: Float(value) is represented by the hand-written model']))
+
+
 # ---- bounded stand-ins (never counted as proved) ------------------------------------------------
 from fractions import Fraction                                # noqa: E402
 from .bounded import Bounded                                  # noqa: E402
